@@ -169,6 +169,8 @@ def tree_jobs(tier, which):
     if which in ("map", "all"):
         for cfg in range(4):
             jobs.append(Job("tree-map-cfg%d-U%d" % (cfg, 13 if X else 11), H, ["map", cfg, 13 if X else 11, 1], wraps=VA_WRAPS, weight=30 if X else 5))
+            if X and cfg in (0, 2):
+                jobs.append(Job("tree-map-cfg%d-U14" % cfg, H, ["map", cfg, 14, 1], wraps=VA_WRAPS, weight=100))
             jobs.append(Job("tree-map-cfg%d-U%d-values" % (cfg, 7 if X else 6), H, ["map", cfg, 7 if X else 6, 3], wraps=VA_WRAPS, weight=20 if X else 5))
     if which in ("walk", "all"):
         jobs.append(Job("tree-walk-U1", H, ["walk", 1, 0, 1], wraps=VA_WRAPS, weight=2))
@@ -279,14 +281,14 @@ def c08(tier, seed):
 
 def list_jobs(tier):
     X = tier == "thorough"
-    jobs = [Job("list-L%d" % (6 if X else 5), ["seqmc/list.c"], [6 if X else 5], wraps=VA_WRAPS, weight=30)]
+    jobs = [Job("list-L%d" % (7 if X else 5), ["seqmc/list.c"], [7 if X else 5], wraps=VA_WRAPS, weight=30)]
     for kind in ("queue", "stack", "grow"):
-        jobs.append(Job("%s-L%d" % (kind, 6 if X else 5), ["seqmc/qsg.c"], [kind, 6 if X else 5], wraps=VA_WRAPS, weight=10))
+        jobs.append(Job("%s-L%d" % (kind, 7 if X else 5), ["seqmc/qsg.c"], [kind, 7 if X else 5], wraps=VA_WRAPS, weight=10))
     return jobs
 
 
 @prop("C09", "model_checking",
-      "BFS closure of every qlist state of length <= 5 (thorough 6) over elements {x, y\\0, a\\0b, \\0} and size limits "
+      "BFS closure of every qlist state of length <= 5 (thorough 7) over elements {x, y\\0, a\\0b, \\0} and size limits "
       "0..3: addfirst/addlast, addat / popat / removeat for every index in [-n-2, n+2] and the first/last variants, reverse, "
       "clear, setsize; after every transition getat of every index in [-n-2, n+2] (both newmem), getfirst/getlast, size, "
       "datasize, toarray, tostring, getnext walks, link structure, and 'refused => nothing changed'. Queue, stack and grow "
@@ -305,13 +307,13 @@ def vector_jobs(tier):
     for cap in range(4):
         for osz in sizes:
             for pol in range(3):
-                jobs.append(Job("vector-c%d-s%d-p%d" % (cap, osz, pol), ["seqmc/vector.c"], [cap, osz, pol, 5 if X else 4], wraps=VA_WRAPS, weight=8 if X else 2))
+                jobs.append(Job("vector-c%d-s%d-p%d" % (cap, osz, pol), ["seqmc/vector.c"], [cap, osz, pol, 6 if X else 4], wraps=VA_WRAPS, weight=8 if X else 2))
     return jobs
 
 
 @prop("C10", "model_checking",
       "for initial capacity 0..3 x element size {1,3,8,16} (thorough {1,2,3,4,7,8,16,64}) x growth policy exact/linear/double: "
-      "BFS closure of every vector state of <= 4 (thorough 5) elements over 3 element values (one all-zero): addfirst/addlast, "
+      "BFS closure of every vector state of <= 4 (thorough 6) elements over 3 element values (one all-zero): addfirst/addlast, "
       "addat/setat/popat/removeat for every index in [-n-2, n+2] and the first/last variants, reverse, resize(0..n+2), clear; "
       "after every transition getat of every index (both newmem), getfirst/getlast, size, toarray, getnext walks, "
       "capacity >= count, errno of refusals, 'refused => unchanged'. Canonical state = (capacity, contents)",
@@ -324,7 +326,7 @@ def c10(tier, seed):
 def hasharr_jobs(tier):
     X = tier == "thorough"
     jobs = [Job("hasharr-bigkey", ["imagemc/hasharr.c"], ["bigkey"], wraps=VA_WRAPS, weight=1)]
-    for m in ([2, 3, 4, 5, 6] if X else [2, 3, 4, 5]):
+    for m in ([2, 3, 4, 5, 6, 7] if X else [2, 3, 4, 5]):
         jobs.append(Job("hasharr-M%d" % m, ["imagemc/hasharr.c"], [m], wraps=VA_WRAPS, weight=10 ** (m - 2)))
     return jobs
 
@@ -483,7 +485,7 @@ def c13_jobs(tier):
                             wraps=SCHED_WRAPS, nosan=["sched/sched.c"], weight=w))
     for cont in C13_CONTAINERS:
         add(cont, 11, 3 if X else 2, "asan", 1, 1)
-        add(cont, 21, 2, "asan", 2, 6)
+        add(cont, 21, 3 if X else 2, "asan", 4 if X else 2, 6)
         add(cont, 11, 2, "tsan", 1, 2)
         add(cont, 21, 2, "tsan", 3, 10)
         if X:
